@@ -35,29 +35,51 @@ def pair_cover(ctx, g, lp, exe, variant, hargs, keyfn, cap, line=step_line, env=
     The single-edge cover reaches each abstract state by ONE history (the shortest); an implementation carries hidden state
     (capacity, tail pointers, stale bytes) that depends on the history, so a defect in e1 that only e2 exposes needs e1;e2
     executed in a row.  Scripts: path(pre(e1)) + e1 + [all self-loops of post(e1)], and path + e1 + e2 for each move e2."""
-    import random
     from .graph import Script
-    rnd = random.Random(ctx.seed + 17)
+    # Enumerating every (e1, e2) pair of a million-edge graph before sampling costs minutes and gigabytes: count first, then
+    # pick by a threshold on a hash of the two edges' TEXTS (deterministic, independent of the order in which TLC happened to
+    # emit the edges, and of the sample size only through the threshold).
+    import zlib
+    salt = zlib.crc32(str(ctx.seed).encode())
+    verified = lp.verified
+    node_out = {}
+
+    def outs_of(v):
+        r = node_out.get(v)
+        if r is None:
+            o = [i for i in g.out[v] if i in verified]
+            r = node_out[v] = ([i for i in o if g.is_loop(i)], [i for i in o if not g.is_loop(i)])
+        return r
+    firsts = [e1 for e1 in sorted(verified) if not g.is_loop(e1) and g.pre_key(e1) in lp.path]
+    total = 0
+    for e1 in firsts:
+        loops, moves = outs_of(g.post_key(e1))
+        total += len(moves) + (1 if loops else 0)
     cands = []
-    for e1 in sorted(lp.verified):
-        if g.is_loop(e1):
-            continue
-        u, v = g.pre_key(e1), g.post_key(e1)
-        if u not in lp.path:
-            continue
-        outs = [i for i in g.out[v] if i in lp.verified]
-        loops = [i for i in outs if g.is_loop(i)]
-        moves = [i for i in outs if not g.is_loop(i)]
-        if loops:
-            cands.append((e1, loops))
-        for e2 in moves:
-            cands.append((e1, [e2]))
-    total = len(cands)
     if cap and total > cap:
-        # deterministic sample, independent of the order in which TLC happened to emit the edges
-        import zlib, heapq
-        salt = str(ctx.seed).encode()
-        cands = heapq.nsmallest(cap, cands, key=lambda c: zlib.crc32((g.line(c[0]) + "|" + g.line(c[1][0])).encode(), zlib.crc32(salt)))
+        T = int(cap / float(total) * 4294967296.0)
+        crc = {}
+
+        def ecrc(i):
+            c = crc.get(i)
+            if c is None:
+                c = crc[i] = zlib.crc32(g.line(i).encode(), salt)
+            return c
+        for e1 in firsts:
+            loops, moves = outs_of(g.post_key(e1))
+            c1 = (ecrc(e1) * 0x9E3779B1) & 0xffffffff
+            if loops and ((c1 ^ 0x5bd1e995) * 0x85EBCA77 & 0xffffffff) < T:
+                cands.append((e1, loops))
+            for e2 in moves:
+                if (((c1 ^ ecrc(e2)) * 0x85EBCA77) & 0xffffffff) < T:
+                    cands.append((e1, [e2]))
+    else:
+        for e1 in firsts:
+            loops, moves = outs_of(g.post_key(e1))
+            if loops:
+                cands.append((e1, loops))
+            for e2 in moves:
+                cands.append((e1, [e2]))
     scripts = []
     for e1, tg in cands:
         lp.sid += 1
